@@ -69,7 +69,7 @@ def _(self, m, cn_solution):
 def _(self):
     returns("float")
     # C19: total depth over covered positions / (number of covered positions + 0.1); 0 for an empty table
-    ensures(result * (len(self._coverage) + 0.1) == sum(depth(self, p) for p in self._coverage))
+    ensures(result * (len(self._coverage) + 0.1) == sum(depth(self, p) for p in self._coverage), label="total-depth-over-positions")
     modifies()
 
 
